@@ -268,7 +268,10 @@ pub fn run(args: &Args) -> i32 {
             let mut ok = true;
             for (ro, raw) in &chans {
                 if let Some(RefPwbChan::Pad(ch)) = ref_readout_to_chan(*ro) {
-                    match pad_slot(run, board, chip, ch).and_then(|p| pad_cal(run, p).map(|c| (p, c))) {
+                    // the expectation is looked up on a fresh thread, so that it does not share per-thread state with
+                    // (and cannot be bent by the history of) the thread that builds the events
+                    let slot = std::thread::scope(|sc| sc.spawn(|| pad_slot(run, board, chip, ch)).join().unwrap());
+                    match slot.and_then(|p| pad_cal(run, p).map(|c| (p, c))) {
                         Some((p, (bl, g, dl))) => {
                             if let Some(s) = expected_signal(raw, bl, g, dl) {
                                 want.push((p, s));
